@@ -11,7 +11,7 @@ import (
 
 func init() {
 	register(&Rule{ID: "R28", Name: "ESC-TABLE", Floor: 250,
-		Text: "one iteration of AppendQuotedString's loop is evaluated for each of the 256 values of the current byte c: for c < 0x80 the byte takes the `no escaping` path exactly when it is in 0x20..0x7F minus the quote and the backslash, and otherwise the bytes appended (besides the flush of the pending unescaped run) are exactly the JSON escape of c (\\t \\r \\n \\\\ \\\" or \\u00XX with the two hex digits of c); for c >= 0x80 the byte is never treated as a single-width character (the rune is decoded); the replacement escape \\ufffd is emitted only under `rune == RuneError && width == 1`, the line/paragraph separator escape only for U+2028/U+2029",
+		Text: "one iteration of AppendQuotedString's loop is evaluated for each of the 256 values of the current byte c: for c < 0x80 the byte takes the `no escaping` path exactly when it is in 0x20..0x7F minus the quote and the backslash, and otherwise the bytes appended (besides the flush of the pending unescaped run) are exactly the JSON escape of c (\\t \\r \\n \\\\ \\\" or \\u00XX with the two hex digits of c); for c >= 0x80 the byte is never treated as a single-width character (the rune is decoded); what happens after decoding (replacement escape, separator escapes, raw copy) is decided per character class by R100",
 		Run:  runR28})
 }
 
@@ -206,62 +206,7 @@ func runR28(c *Ctx) {
 			c.bad(key, p.instrPos(cLoad), fmt.Sprintf("byte 0x%02x is written as %q but valid JSON requires %q", k, out, want))
 		}
 	}
-	// the multi-byte escapes are guarded
-	eachInstr(fn, func(in ssa.Instruction) {
-		call, ok := in.(*ssa.Call)
-		if !ok || builtinName(call) != "append" {
-			return
-		}
-		s, ok := constString(call.Call.Args[1])
-		if !ok {
-			return
-		}
-		switch s {
-		case "\\ufffd":
-			gErr, gW := false, false
-			for _, g := range dominatingGuards(call.Block()) {
-				b, ok := g.Cond.(*ssa.BinOp)
-				if !ok || b.Op != token.EQL || !g.Val {
-					continue
-				}
-				ex, ok := b.X.(*ssa.Extract)
-				if !ok {
-					continue
-				}
-				if k, isK := constInt(b.Y); isK {
-					if ex.Index == 0 && k == 0xFFFD {
-						gErr = true
-					}
-					if ex.Index == 1 && k == 1 {
-						gW = true
-					}
-				}
-			}
-			key := fname(fn) + `|replacement-char escape`
-			if gErr && gW {
-				c.ok(key, p.instrPos(call), "only under rune == RuneError && width == 1 (an invalid byte, not a genuine U+FFFD)")
-			} else {
-				c.bad(key, p.instrPos(call), `the replacement escape is not guarded by both rune == RuneError and width == 1: a validly encoded U+FFFD (3 bytes) is rewritten byte-wise / invalid bytes are copied through`)
-			}
-		case `\u202`:
-			n := 0
-			for _, g := range dominatingGuards(call.Block()) {
-				if b, ok := g.Cond.(*ssa.BinOp); ok && b.Op == token.EQL && g.Val {
-					if k, isK := constInt(b.Y); isK && (k == 0x2028 || k == 0x2029) {
-						n++
-					}
-				}
-			}
-			key := fname(fn) + `|\u202x escape`
-			// `a == 0x2028 || a == 0x2029` -> the block has two predecessors; accept when reached only via those tests
-			okG := n >= 1 || onlyViaSeparatorTests(call.Block())
-			if okG {
-				c.ok(key, p.instrPos(call), "only for U+2028 / U+2029")
-			} else {
-				c.bad(key, p.instrPos(call), "the separator escape is not limited to U+2028/U+2029")
-			}
-		}
-	})
+	// the multi-byte escapes (invalid byte, U+2028/2029, genuine U+FFFD, other runes) are decided by R100's classes
 }
 
 func onlyViaSeparatorTests(b *ssa.BasicBlock) bool {
